@@ -324,6 +324,39 @@ func streamCwt(c *ctx) {
 		}
 		c.nontriv(fmt.Sprintf("new|%v", err == nil))
 	}
+	// directed: each time claim of the map form holding a value that is not a non-negative integer, in every Go form such a
+	// value can take, the other claims valid and the options such that the claim matters: refused, whatever the value
+	// would be read as modulo 2^64 or rounded to
+	{
+		type namedSec int64
+		type namedSmall int16
+		now := int64(1700000000)
+		for oi, skew := range []time.Duration{0, time.Minute, 0, time.Minute} {
+			// (with and without ExpectIssuedInThePast: an iat that is present is a NumericDate either way)
+			dv, err := cwt.NewValidator(&cwt.ValidatorOpts{FixedNow: time.Unix(now, 0), ClockSkew: skew, ExpectIssuedInThePast: oi < 2, AllowMissingExpiration: oi%2 == 0})
+			if err != nil {
+				continue
+			}
+			lim := float64(now + int64(skew/time.Second))
+			vals := []any{int8(-1), int8(-128), int16(-300), int32(-70000), int64(-1), int(-1), namedSec(-5), namedSmall(-2), float64(now) + 0.5, float32(16777216), lim + 0.5, lim + 0.25, lim - 0.75,
+				float64(now - 1000), math.NaN(), math.Inf(1), -0.5, "1700000000", nil, true, []byte{1}, []any{uint64(now)}, map[any]any{}}
+			for _, label := range []int{4, 5, 6} {
+				for _, val := range vals {
+					dm := cwt.ClaimsMap{4: uint64(now + 1000), 5: uint64(now - 1000), 6: uint64(now - 1000)}
+					dm[label] = val
+					var got error
+					p, pm := catch(func() { got = dv.ValidateMap(dm) })
+					c.eval()
+					c.nontriv(fmt.Sprintf("cwt-directed|%d|%T", label, val))
+					if p || got == nil {
+						c.fail(failure{Op: "cwt.ValidateMap", What: "a time claim that is not a non-negative integer is accepted", Input: fmt.Sprintf("cwt-map-directed|claim %d = %T(%v)|now=%d|skew=%v|ExpectIssuedInThePast=%v|others valid", label, val, val, now, skew, oi < 2),
+							Observed: fmt.Sprintf("panic=%v %s accepted", p, pm), Expected: "an error (invalid claim)", Case: "cwt-map-directed", Theorem: "C18_validate_map_is_rfc8392"})
+					}
+				}
+			}
+		}
+	}
+
 }
 
 func classU(u uint64, o cwtOpts) int {
